@@ -85,6 +85,11 @@ def run_cases(cases):
             first = head[1] if len(head) > 1 else err
             grow = 'runtime.growslice' in first or 'bytes.(*Buffer).grow' in first
             obs.append({'oom': True, 'want': want, 'used': used, 'grow': grow, 'where': fr[0] if fr else '?'})
+        elif re.search(r'^panic: ', err, flags=re.M):
+            # a panic outside the goroutine that runs the case (read-ahead worker of the BGZF reader): it
+            # cannot be recovered and ends the process; it is the observation of the case that was running
+            msg = re.search(r'^panic: (.*)$', err, flags=re.M).group(1)
+            obs.append({'panic': msg[:200], 'stack': err[:6000], 'goroutine': True})
         else:
             obs.append({'crash': True, 'rc': p.returncode, 'stderr': err[-1500:]})
         todo = todo[1:]
@@ -312,6 +317,14 @@ def gen_cases(rng, tier):
         for _ in range(6):
             m, lab = g.mutate_fields(rng, fs)
             add('bgzf', g.join(m), lab, rd=rng.choice([1, 1, 2]))
+    # gzip member headers in front of the BGZF reader: XLEN edits, subfield layouts, SLEN edits, truncated extra,
+    # BC not first, optional header parts; in the first member (NewReader) and in the second (Read)
+    for hdr, lab in g.bgzf_header_variants(rng):
+        good = g.join(g.bgzf_member_fields(0, b'ACGT' * 10))
+        for pos in (0, 1):
+            x = (good if pos else b'') + hdr + g.join(g.bgzf_member_fields(9, b''))
+            for rd in (1, 2):
+                add('bgzf', x, 'hdr:' + lab, rd=rd, m=pos)
     # indexes
     for op, mk in (('bai', g.bai_fields), ('tbi', g.tbi_fields), ('csi', g.csi_fields)):
         for _ in range(14 * K):
